@@ -599,6 +599,19 @@ pub fn eval(job: &Job) -> JobResult {
                     }
                     run_batch(batch);
                 }
+            } else {
+                // thorough: depth 4 over the core alphabet
+                for &a in &core {
+                    for &b in &core {
+                        let mut batch = vec![];
+                        for &c in &core {
+                            for &d in &core {
+                                batch.push(vec![f(a), f(b), f(c), f(d)]);
+                            }
+                        }
+                        run_batch(batch);
+                    }
+                }
             }
         }
     }
